@@ -346,6 +346,8 @@ func init() {
 				}
 			}
 		}
+		// ---- boundary corpus, components (fixed shapes first: notes/boundary-audit.md)
+		c18BoundaryComponents(c)
 		// ---- (T) text-level functions
 		for _, s := range c18DataPool {
 			c.Tie("text "+hexs(s), hexs(c18Render(core.NewText(s))))
@@ -390,7 +392,7 @@ func init() {
 		batch := 100
 		seenHit := map[string]bool{}
 		cover := map[string]int{}
-		totalPages := 0
+		totalPages := c18BoundaryPages(c, seenHit, cover) // boundary corpus and histories, documents
 		for lo := 0; lo < nSites; lo += batch {
 			hi := lo + batch
 			if hi > nSites {
@@ -572,22 +574,33 @@ func c18PairName(name string) string { return c18KeyRe.ReplaceAllString(strings.
 
 // c18PageBatch publishes sites lo..hi-1 (each with its de-tainted twin), judges every page and
 // returns the number of pages.
+// c18SiteJob is one operation (publish / diff / query) on a taint document, with the same
+// operation on the de-tainted twin.
+type c18SiteJob struct {
+	doc       *c18Doc
+	job, twin *c18Job
+	what      string
+}
+
+func c18MkSiteJob(d *c18Doc, j *c18Job, what string) c18SiteJob {
+	t := *j
+	t.Gedcom = []byte(c18Detaint(string(j.Gedcom)))
+	if len(j.Gedcom2) > 0 {
+		t.Gedcom2 = []byte(c18Detaint(string(j.Gedcom2)))
+	}
+	if len(j.Pre) > 0 {
+		t.Pre = []byte(c18Detaint(string(j.Pre)))
+	}
+	return c18SiteJob{d, j, &t, what}
+}
+
+var c18Queries = []string{".Individuals", ".Individuals | .Name", ".Individuals | .Name | .String", ".Sources", ".Families",
+	".Individuals | { name: .Name | .String, born: .Birth | .String }", ".Places", ".Nodes", "?", ".Individuals | First(1)", ".Warnings"}
+
 func c18PageBatch(c *Ctx, lo, hi int, seenHit map[string]bool, cover map[string]int) int {
 	year := time.Now().Year()
-	type siteJob struct {
-		doc       *c18Doc
-		job, twin *c18Job
-		what      string
-	}
-	var jobs []siteJob
-	mk := func(d *c18Doc, j *c18Job, what string) {
-		t := *j
-		t.Gedcom = []byte(c18Detaint(string(j.Gedcom)))
-		if len(j.Gedcom2) > 0 {
-			t.Gedcom2 = []byte(c18Detaint(string(j.Gedcom2)))
-		}
-		jobs = append(jobs, siteJob{d, j, &t, what})
-	}
+	var jobs []c18SiteJob
+	mk := func(d *c18Doc, j *c18Job, what string) { jobs = append(jobs, c18MkSiteJob(d, j, what)) }
 	for i := lo; i < hi; i++ {
 		d := c18Generate(c.R, "taint", year, 0)
 		for kv, n := range d.Variants {
@@ -595,7 +608,7 @@ func c18PageBatch(c *Ctx, lo, hi int, seenHit map[string]bool, cover map[string]
 		}
 		o := c18RandOpts(c.R)
 		o.Living = []string{"show", "hide", "placeholder"}[i%3]
-		mk(d, &c18Job{Kind: "publish", Gedcom: []byte(d.Text), Opts: o, Jobs: 1 + c.R.Intn(3)}, "publish "+o.String())
+		mk(d, &c18Job{Kind: "publish", Gedcom: []byte(d.Text), Opts: o, Jobs: []int{1, 2, 8}[c.R.Intn(3)]}, "publish "+o.String())
 		if i%4 == 0 { // diff report of the document against an independently generated one / itself
 			d2 := d
 			if c.R.Bool() {
@@ -606,15 +619,19 @@ func c18PageBatch(c *Ctx, lo, hi int, seenHit map[string]bool, cover map[string]
 			}
 			show := []string{"all", "only-matches", "subset"}[c.R.Intn(3)]
 			srt := []string{"written-name", "highest-similarity"}[c.R.Intn(2)]
-			mk(d, &c18Job{Kind: "diff", Gedcom: []byte(d.Text), Gedcom2: []byte(d2.Text), Opts: o, Jobs: 1, Show: show, Sort: srt},
+			mk(d, &c18Job{Kind: "diff", Gedcom: []byte(d.Text), Gedcom2: []byte(d2.Text), Opts: o, Jobs: []int{1, 1, 2, 8}[c.R.Intn(4)], Show: show, Sort: srt},
 				"diff show="+show+" sort="+srt+" living="+o.Living)
 		}
 		if i%4 == 1 { // html query output
-			qs := []string{".Individuals", ".Individuals | .Name", ".Individuals | .Name | .String", ".Sources", ".Families",
-				".Individuals | { name: .Name | .String, born: .Birth | .String }", ".Places", ".Nodes", "?", ".Individuals | First(1)", ".Warnings"}
-			mk(d, &c18Job{Kind: "query", Gedcom: []byte(d.Text), Queries: qs}, "query -format html")
+			mk(d, &c18Job{Kind: "query", Gedcom: []byte(d.Text), Queries: c18Queries}, "query -format html")
 		}
 	}
+	return c18JudgeJobs(c, jobs, seenHit, cover)
+}
+
+// c18JudgeJobs runs the jobs (and their twins) in child processes and judges every page: taint
+// search, Lean wellNested, structure against the twin.  Returns the number of pages.
+func c18JudgeJobs(c *Ctx, jobs []c18SiteJob, seenHit map[string]bool, cover map[string]int) int {
 	results := make([]*c18Result, 2*len(jobs))
 	c18Parallel(2*len(jobs), 12, func(i int) {
 		if i%2 == 0 {
@@ -659,7 +676,9 @@ func c18PageBatch(c *Ctx, lo, hi int, seenHit map[string]bool, cover map[string]
 			kind := c18RefineKind(f.Name, f.Data)
 			pages = append(pages, c18PageCheck{j.job, j.doc, j.what, f.Name, kind, f.Data, in})
 			k := c18PairName(f.Name)
-			if own[k] == 1 && !twinDup[k] {
+			// the order of equally similar rows of a diff report depends on the schedule when
+			// jobs > 1 (C11's business): the twin comparison is kept to single-job reports
+			if own[k] == 1 && !twinDup[k] && !(j.job.Kind == "diff" && j.job.Jobs > 1) {
 				twins = append(twins, twinBy[k])
 			} else {
 				twins = append(twins, nil)
